@@ -87,7 +87,22 @@ Definition int_representable (z : Z) : bool :=
   | Zpos p | Zneg p => (Npos p <? 2 ^ 1024) && (Npos (odd_part p) <? 2 ^ 53)
   end.
 
-Definition float_of_int (z : Z) : pyfloat := FFin (z <? 0)%Z (Z.abs_N z) 0%Z.
+Fixpoint trailing_zeros (p : positive) : Z :=
+  match p with
+  | xO q => (1 + trailing_zeros q)%Z
+  | _ => 0%Z
+  end.
+
+(* canonical form of a finite float: odd mantissa, or mantissa 0 with exponent 0 *)
+Definition f_norm (x : pyfloat) : pyfloat :=
+  match x with
+  | FFin s N0 _ => FFin s 0 0%Z
+  | FFin s (Npos p) e => FFin s (Npos (odd_part p)) (e + trailing_zeros p)%Z
+  | _ => x
+  end.
+
+(* float(z) for a representable z, in canonical form *)
+Definition float_of_int (z : Z) : pyfloat := f_norm (FFin (z <? 0)%Z (Z.abs_N z) 0%Z).
 
 (* ------------------------------------------------------------------ str(int) *)
 
